@@ -289,13 +289,16 @@ def try_known(v):
 
 
 class Path:
-    __slots__ = ('env', 'bb', 'conds', 'events', 'visits', 'trace')
+    __slots__ = ('env', 'bb', 'conds', 'events', 'visits', 'trace', 'havocked')
 
     def __init__(self, env, bb, conds, events, visits, trace):
         self.env, self.bb, self.conds, self.events, self.visits, self.trace = env, bb, conds, events, visits, trace
+        self.havocked = set()
 
     def fork(self, bb, cond=None):
-        return Path(dict(self.env), bb, self.conds + ([cond] if cond else []), list(self.events), dict(self.visits), list(self.trace))
+        np = Path(dict(self.env), bb, self.conds + ([cond] if cond else []), list(self.events), dict(self.visits), list(self.trace))
+        np.havocked = set(self.havocked)
+        return np
 
 
 class Explorer:
@@ -307,9 +310,11 @@ class Explorer:
     Switches on enum discriminants / booleans fork; `?` follows the Continue arm only unless
     follow_break is set; loops are cut after `max_visits` visits of a block per path."""
 
-    def __init__(self, fn, follow_break=False, max_visits=1, max_paths=4000, transparent=is_transparent, on_call=None, keep_site=False, facts=None):
+    def __init__(self, fn, follow_break=False, max_visits=1, max_paths=4000, transparent=is_transparent, on_call=None, keep_site=False, facts=None, havoc=False):
         self.fn = fn
         self.fx = facts
+        self.havoc = havoc
+        self._loops = None
         self.follow_break = follow_break
         self.max_visits = max_visits
         self.max_paths = max_paths
@@ -404,6 +409,59 @@ class Explorer:
             return ('repeat', self.operand(env, rv['o']), rv['n'])
         return ('rv', k, rv.get('v', ''))
 
+    def loop_info(self):
+        """{header block: set of locals assigned inside its cycle} from the strongly connected components of the CFG."""
+        if self._loops is not None:
+            return self._loops
+        fn = self.fn
+        succ = fn.succ()
+        idx, low, st, on, comps = {}, {}, [], set(), []
+        counter = [0]
+        import sys
+        sys.setrecursionlimit(max(10000, sys.getrecursionlimit()))
+
+        def strong(v):
+            idx[v] = low[v] = counter[0]
+            counter[0] += 1
+            st.append(v)
+            on.add(v)
+            for w in succ.get(v, ()):
+                if w not in idx:
+                    strong(w)
+                    low[v] = min(low[v], low[w])
+                elif w in on:
+                    low[v] = min(low[v], idx[w])
+            if low[v] == idx[v]:
+                comp = []
+                while True:
+                    w = st.pop()
+                    on.discard(w)
+                    comp.append(w)
+                    if w == v:
+                        break
+                if len(comp) > 1 or v in succ.get(v, ()):
+                    comps.append(set(comp))
+        for b in sorted(fn.reachable_blocks()):
+            if b not in idx:
+                strong(b)
+        preds = fn.preds()
+        info = {}
+        for comp in comps:
+            assigned = set()
+            for b in comp:
+                blk = fn.blocks[b]
+                for stt in blk['stmts']:
+                    if not stt['lhs']['p']:
+                        assigned.add(stt['lhs']['l'])
+                t = blk['term']
+                if t['k'] == 'call' and not t['dest']['p']:
+                    assigned.add(t['dest']['l'])
+            for b in comp:
+                if b == 0 or any(pb not in comp for pb in preds.get(b, ())):
+                    info[b] = assigned
+        self._loops = info
+        return info
+
     def run(self, args=None):
         fn = self.fn
         if args is None:
@@ -422,6 +480,13 @@ class Explorer:
                 p.trace.append(p.bb)
                 b = blocks[p.bb]
                 env = p.env
+                if self.havoc and n == 0:
+                    li = self.loop_info().get(p.bb)
+                    if li:
+                        for loc in li:
+                            if loc in env and loc in fn.names:
+                                env[loc] = ('havoc', fn.names[loc])
+                                p.havocked.add(fn.names[loc])
                 for st in b['stmts']:
                     val = self.rvalue(env, st['rv'])
                     lhs = st['lhs']
@@ -578,6 +643,8 @@ def sv(v, depth=0):
         return '%s(%s)' % (v[1], sv(v[2], depth + 1))
     if k == 'undef':
         return '_%s' % v[1]
+    if k == 'havoc':
+        return '?' + str(v[1])
     return str(v)[:80]
 
 
